@@ -148,34 +148,48 @@ theorem im_frame (t : Tree) : ∀ (x : Ctx) (s : ISt), Frame s (im t x s) := by
           | fault s2 => trivial
         · exact frame_trans hb.1 hb.2 (frame_finExc _ _ _ (fun s => ihf x s))
       | fault s1 => trivial
-  | native o fl cb ih =>
+  | native inner o fl cb k ih ihk =>
     intro x s
     simp only [im]
     split
-    · generalize (x.inTry && (x.f.and fl).mut) = wrapped
+    · generalize (if inner = true then x.f else x.f.and fl) = f'
+      generalize (!inner && x.inTry && f'.mut) = wrapped
       have hev0 : (if wrapped = true then s.push else s).ev = s.ev := by split <;> simp [ISt.push]
       generalize hs0 : (if wrapped = true then s.push else s) = s0 at *
-      cases natStep o x.c (x.f.and fl) s0.view.get with
+      cases natStep o x.c f' s0.view.get with
       | none => trivial
       | some out =>
         simp only
         have hp1 : s.ev <+: s0.ev ++ out.evs := by rw [hev0]; exact List.prefix_append _ _
+        have tail : ∀ (s2 : ISt), s2.below = s0.below → s.ev <+: s2.ev →
+            Frame s (match im k ⟨x.c, f', false, x.h⟩ s2 with
+              | .norm s3 => .norm (s3.unload wrapped s.ev.length)
+              | .thrown s3 => .fault s3
+              | .fault s3 => .fault s3) := by
+          intro s2 b2 p2
+          have hk := ihk ⟨x.c, f', false, x.h⟩ s2
+          cases hrk : im k ⟨x.c, f', false, x.h⟩ s2 with
+          | norm s3 =>
+            rw [hrk] at hk
+            exact frame_unload (s := s) wrapped (by rw [hs0]; exact hk.1.trans b2) (p2.trans hk.2)
+          | thrown s3 => trivial
+          | fault s3 => trivial
+        simp only [imPhase]
         cases out.cb with
-        | none =>
-          simp only
-          exact frame_unload (s := s) (s1 := { s0 with top := out.ws ++ s0.top, ev := s0.ev ++ out.evs }) wrapped (by rw [hs0]) hp1
+        | none => simp only; exact tail _ rfl hp1
         | some to =>
           simp only
-          split
-          · trivial
-          have hb := ih ⟨to, x.f.and fl, false, x.h⟩ { s0 with top := out.ws ++ s0.top, ev := s0.ev ++ out.evs }
-          cases hr : im cb ⟨to, x.f.and fl, false, x.h⟩ { s0 with top := out.ws ++ s0.top, ev := s0.ev ++ out.evs } with
+          by_cases hab : out.cbAbort = true
+          · simp only [hab, if_true]; trivial
+          simp only [hab, if_false, Bool.false_eq_true]
+          have hb := ih ⟨to, f', false, x.h⟩ { s0 with top := out.ws ++ s0.top, ev := s0.ev ++ out.evs }
+          cases hr : im cb ⟨to, f', false, x.h⟩ { s0 with top := out.ws ++ s0.top, ev := s0.ev ++ out.evs } with
           | norm s2 =>
             rw [hr] at hb
             simp only
-            split
-            · trivial
-            · exact frame_unload (s := s) wrapped (by rw [hs0]; exact hb.1) (hp1.trans hb.2)
+            by_cases he : s2.exc = true
+            · simp only [he, if_true]; trivial
+            · simp only [he, if_false, Bool.false_eq_true]; exact tail s2 hb.1 (hp1.trans hb.2)
           | thrown s2 => trivial
           | fault s2 => trivial
     · trivial
